@@ -73,7 +73,16 @@ Theorem C11_empty_path_not_found :
 Proof. exact empty_path_not_found. Qed.
 Print Assumptions C11_empty_path_not_found.
 
-Example C11_stray_heads : is_bar_eq x7c = true /\ is_bar_eq x3d = true /\ is_bar_eq x61 = false.
+(* 6. a path that ends with a stray separator '|' resolves to nothing, on every tree, whatever precedes
+      the separator (quoted titles with escapes included) — for both getters *)
+Theorem C11_stray_tail_not_found :
+  forall (w : pw) (c : cfg) (b : byte) (p : str), counts_ok c ->
+  is_bar b = true ->
+  rs_opt (getopt_secidx c (p ++ [b]) false) = None /\ snd (cfg_getsec w c (p ++ [b])) = None.
+Proof. exact stray_tail_not_found. Qed.
+Print Assumptions C11_stray_tail_not_found.
+
+Example C11_stray_heads : is_bar_eq x7c = true /\ is_bar_eq x3d = true /\ is_bar_eq x61 = false /\ is_bar x7c = true.
 Proof. vm_compute. repeat split. Qed.
 
 (* the side condition is decidable on a concrete tree *)
